@@ -211,6 +211,9 @@ class _Run:
             if mode == 4:
                 await self._stub_consumer(a)
                 return
+            if mode == 5:
+                await self._stream_stream_consumer(a)
+                return
             if mode == 1:
                 await self.pause()
                 self.in_op[a] = "iterate"
@@ -294,6 +297,75 @@ class _Run:
         await ServiceStub._send_messages(FakeStream(), self.ch)
         self.in_op[a] = None
         self.end[a] = "end-of-iteration"
+
+    async def _stream_stream_consumer(self, a: str) -> None:
+        """The real ServiceStub._stream_stream: it spawns _send_messages(stream, channel) as a task and
+        cancels it when the response side fails - i.e. the library itself cancels a receiver that is
+        blocked in the channel.  The grpclib channel/stream are recording fakes."""
+        run = self
+        t = self.tape
+        n_resp = t.draw(3, "ss-responses")
+        fail = t.draw(3, "ss-fail")           # 0: response side ends normally; 1-2: it raises
+
+        class FakeStream:
+            async def send_request(self):
+                pass
+
+            async def send_message(self, m, end=False):
+                run.ev(a, "ret", "recv", m)
+                await run.pause("ss-send-pause")
+
+            async def end(self):
+                run.ev(a, "ret", "stream.end")
+                run.end[a] = "end-of-iteration"
+
+            def __aiter__(self):
+                return self._responses()
+
+            async def _responses(self):
+                for k in range(n_resp):
+                    await run.pause("ss-resp-pause")
+                    yield ("resp", k)
+                await run.pause("ss-resp-pause")
+                if fail:
+                    run.injected_cancel.add(a)
+                    run.stats["fault:stream_stream-cancels-its-sender-task"] += 1
+                    run.ev(a, "fault", "response-side-fails")
+                    raise ConnectionResetError("response side failed (injected)")
+
+        class Ctx:
+            async def __aenter__(self):
+                return FakeStream()
+
+            async def __aexit__(self, *exc):
+                return False
+
+        class FakeChannel:
+            def request(self, *args, **kw):
+                return Ctx()
+
+        await self.pause()
+        self.in_op[a] = "iterate"
+        self.ev(a, "inv", "iterate", "_stream_stream")
+        stub = ServiceStub(FakeChannel())
+
+        def adopt_sender():
+            # the library's own sender task is the real receiver on the channel: track it, so that a
+            # stranded one is noticed at quiescence (the response side may end before it does)
+            for tk in asyncio.all_tasks():
+                co = tk.get_coro()
+                if getattr(co, "__qualname__", "").endswith("_send_messages") and tk not in self.recv_tasks.values():
+                    self.recv_tasks[a + "-sender"] = tk
+        try:
+            async for _ in stub._stream_stream("/x/Y", self.ch, object, object):
+                adopt_sender()
+            adopt_sender()
+        except ConnectionResetError:
+            adopt_sender()
+            self.in_op[a] = None
+            self.end[a] = "cancelled"          # the sender task was cancelled by the library
+            return
+        self.in_op[a] = None
 
     async def closer(self, cfg) -> None:
         if cfg["when"] == 0:
@@ -417,7 +489,7 @@ class _Run:
             close = bool(tape.draw(3, "send_from-close") == 2) if mode else False
             scfg.append(dict(mode=mode, items=[(f"s{s}", k) for k in range(n)], close=close,
                              cancel_after_send=None))
-        rcfg = [dict(mode=tape.weighted([3, 3, 2, 2, 2], "recv-mode")) for _ in range(n_recv)]
+        rcfg = [dict(mode=tape.weighted([3, 3, 2, 2, 2, 2], "recv-mode")) for _ in range(n_recv)]
         closer = dict(when=tape.draw(5, "closer"))       # 0 idiomatic, 1..3 arbitrary, 4 never
         canc = tape.draw(4, "canceller")                  # 0 none, 1-2 at a drawn point, 3 right after a send
         ccfg = None
@@ -605,19 +677,20 @@ class ChanSim(Simulator):
                        "timer ties / P1 external arrivals between any two handles / P2 any ready handle next), "
                        "buffer limit 0/1/2, 1-2 senders (send per item, send_from list, send_from async generator, "
                        "optionally close=True) x 1-3 items, 1-3 receivers (receive loop, async for, wait_for(receive), "
-                       "wait_for(__anext__), the real ServiceStub._send_messages), a closer (idiomatic, at an "
+                       "wait_for(__anext__), the real ServiceStub._send_messages, the real ServiceStub._stream_stream whose response "
+                       "side may fail so that the library cancels its own sender task), a closer (idiomatic, at an "
                        "arbitrary point, or never), an optional canceller (arbitrary point, or in the step right "
                        "after a send), an optional post-close sender, all pauses, then a drain phase.")
     nontrivial_rule = ("some channel operation had events of another actor between its invocation and its "
                        "return (i.e. it really blocked or was overtaken).")
-    components_real = ["betterproto AsyncChannel", "betterproto ServiceStub._send_messages",
+    components_real = ["betterproto AsyncChannel", "betterproto ServiceStub._send_messages and _stream_stream",
                        "CPython asyncio Task/Future/Queue/wait_for/timeout"]
     components_stub = ["event-loop scheduler, selector and clock (SimLoop)",
-                       "grpclib stream handed to _send_messages (recording fake)"]
+                       "grpclib channel/stream handed to _send_messages and _stream_stream (recording fakes)"]
     assumptions = ["CPython 3.12 asyncio.Queue semantics", "items are never None",
                    "sampling of schedules, not enumeration"]
     tiers = {
-        "quick": dict(runs=60000, chunk=500, wall_cap=240, det_sample=300),
+        "quick": dict(runs=120000, chunk=1000, wall_cap=240, det_sample=400),
         "thorough": dict(runs=6000000, chunk=2000, wall_cap=1500, det_sample=5000),
     }
     expected_probes = ["probe:cancel-landed-between-wakeup-and-resumption",
